@@ -20,6 +20,8 @@ Proof. reflexivity. Qed.
 Lemma dz_ok_ne_error : c_HTP_ERROR <> c_HTP_OK.
 Proof. vm_compute. discriminate. Qed.
 
+Global Opaque dz_BUF.
+
 Section Bound.
 Variable OT : Type.
 Variable ask : OT -> dz_query -> dz_ans * OT.
@@ -121,6 +123,9 @@ Qed.
 Lemma dz_wf_app l out : dz_wf l -> (length out <= dz_avail_out l)%nat -> dz_wf (dz_set_obuf l (dz_obuf l ++ out)).
 Proof. unfold dz_wf, dz_avail_out. wsimpl. rewrite app_length. lia. Qed.
 
+Lemma dz_wf_app2 l0 ob out : (length ob <= dz_BUF)%nat -> (length out <= dz_BUF - length ob)%nat -> dz_wf (dz_set_obuf l0 (ob ++ out)).
+Proof. unfold dz_wf. wsimpl. rewrite app_length. lia. Qed.
+
 (* the external decoding step delivers nothing *)
 Lemma dz_decode_spec d l (w : world) input rc :
   dz_wf l ->
@@ -142,17 +147,17 @@ Proof.
       destruct (dz_hlen l1 + 1 >? c_dz_LZMA_HEADER_SIZE).
       * destruct (dz_ask OT ask w1 (QLzDecode input1 (dz_avail_out (dz_set_hlen l1 (dz_hlen l1 + 1))))) as [a2 w2] eqn:Ha2.
         apply dz_ask_spec in Ha2. destruct Ha as (?&?&_). destruct Ha2 as (?&?&?&?).
-        repeat split; try congruence; unfold dz_wf, dz_avail_out in *; wsimpl; try rewrite app_length; try lia; auto.
+        wsimpl; repeat split; try congruence; try (apply dz_wf_app2; [first [exact Hwf1|exact Hwf] | assumption]).
       * intuition.
     + destruct (dz_hlen l1 >? c_dz_LZMA_HEADER_SIZE).
       * destruct (dz_ask OT ask w (QLzDecode input1 (dz_avail_out l1))) as [a2 w2] eqn:Ha2.
         apply dz_ask_spec in Ha2. destruct Ha2 as (?&?&?&?).
-        repeat split; try congruence; unfold dz_wf, dz_avail_out in *; wsimpl; try rewrite app_length; try lia; auto.
+        wsimpl; repeat split; try congruence; try (apply dz_wf_app2; [first [exact Hwf1|exact Hwf] | assumption]).
       * intuition.
   - destruct (negb (dz_zinit l =? 0)).
     + destruct (dz_ask OT ask w (QInflate input (dz_avail_out l))) as [a2 w2] eqn:Ha2.
       apply dz_ask_spec in Ha2. destruct Ha2 as (?&?&?&?).
-      repeat split; try congruence; unfold dz_wf, dz_avail_out in *; wsimpl; try rewrite app_length; try lia; auto.
+      wsimpl; repeat split; try congruence; try (apply dz_wf_app2; [first [exact Hwf1|exact Hwf] | assumption]).
     + intuition.
 Qed.
 
@@ -343,10 +348,11 @@ Proof.
   destruct (dz_pass l) eqn:Hp.
   { destruct (dz_callback OT c d w) as [w1 crc] eqn:Hcb. inversion H; subst; clear H.
     apply dz_callback_clean in Hcb; auto. destruct Hcb as (Hm1 & He1 & Hb1 & Hok1).
-    repeat split; auto; try lia; try discriminate.
-    destruct (negb (crc =? c_HTP_OK)) eqn:Hcrc; intros Hx.
-    - exfalso. apply dz_ok_ne_error. exact Hx.
-    - apply negb_false_iff, Z.eqb_eq in Hcrc. auto. }
+    split; [exact Hm1|]. split; [constructor; auto|]. split; [exact He1|]. split; [lia|]. split.
+    - destruct (negb (crc =? c_HTP_OK)) eqn:Hcrc; intros Hx.
+      + exfalso. apply dz_ok_ne_error. exact Hx.
+      + apply negb_false_iff, Z.eqb_eq in Hcrc. auto.
+    - intros Hf. discriminate Hf. }
   destruct (dd_null d) eqn:Hn.
   { set (dout := match dz_obuf l with [] => dz_null | _ :: _ => dz_some (dz_obuf l) end) in H.
     assert (Hdout : (length (dd_bytes dout) <= dz_BUF)%nat).
@@ -1313,7 +1319,7 @@ Proof.
       { left. rewrite <- Hpay in Hbomb. rewrite !app_length in Hbomb. unfold dz_len. cbn [dd_bytes dz_some]. lia. }
       rewrite Hcb. rewrite Z.eqb_refl. cbn [negb].
       exists (dz_set_obuf l []), w1. wsimpl. cbn [dd_bytes dz_some] in Hd1. csplit; auto; try congruence.
-      + unfold dz_avail_out. wsimpl. cbn [length]. unfold dz_BUF. rewrite dz_buf_size. lia.
+      + unfold dz_avail_out. wsimpl. cbn [length]. pose proof dz_BUF_val as HBV. rewrite dz_buf_size in HBV. lia.
       + rewrite Hd1, <- app_assoc. cbn [app]. exact Hpay.
       + cbn. lia.
     - apply Nat.eqb_neq in Hao. exists l, w. csplit; auto. lia. }
@@ -1809,7 +1815,63 @@ Proof.
   destruct (dz_calls_pass chunks _ HPI) as [HPI2 Hd2]. cbv zeta in HPI2, Hd2.
   set (t2 := dz_calls OT ask c (fst (dz_process_body_data OT ask c tx0 0 (Some (b :: ch')))) (map (fun ch => (0, Some ch)) chunks)) in *.
   destruct (dz_process_pass t2 None HPI2) as [Hd3 Hc3]. cbv zeta in Hd3, Hc3.
-  change (dz_calls OT ask c t2 [(0, None)]) with (fst (dz_process_body_data OT ask c t2 0 None)).
-  rewrite Hc3. cbn [dz_destroy]. rewrite Hd3, Hd2, Hd1. cbn [dz_data_of dd_bytes dz_null concat]. rewrite app_nil_r. reflexivity.
+  change (dz_calls OT ask c t2 [(0, None)]) with (fst (dz_process_body_data OT ask c t2 0 (@None bytes))).
+  unfold bytes in *. rewrite Hc3. cbn [dz_destroy]. rewrite Hd3. subst t2. rewrite Hd2, Hd1. cbn [dz_data_of dd_bytes dz_null concat]. rewrite app_nil_r. reflexivity.
 Qed.
 End Passthrough.
+
+(* ------------------------------------------------------------------ a toy decoder that satisfies the inflate contract (non-vacuity of Hz2) *)
+(* format: |windowBits| payload bytes copied verbatim, then one trailer byte; Z_STREAM_END when the trailer is consumed *)
+Inductive dz_toy := ToyBody (n : nat) | ToyDone.
+Definition dz_toy_init (wb : Z) : dz_toy := ToyBody (Z.to_nat (Z.abs wb)).
+Definition dz_toy_inflate (z : dz_toy) (offered : bytes) (ao : nat) : dz_toy * nat * bytes * Z :=
+  match z with
+  | ToyBody O => match offered with [] => (z, O, [], c_dz_Z_OK) | _ :: _ => (ToyDone, 1%nat, [], c_dz_Z_STREAM_END) end
+  | ToyBody (S n) => let k := Nat.min (S n) (Nat.min (length offered) ao) in (ToyBody (S n - k), k, firstn k offered, c_dz_Z_OK)
+  | ToyDone => (ToyDone, O, [], c_dz_Z_STREAM_END)
+  end.
+Definition dz_toy_valid (z : dz_toy) (s p : bytes) : Prop :=
+  match z with ToyBody n => length p = n /\ exists t, s = p ++ [t] | ToyDone => False end.
+
+Lemma dz_toy_contract : forall z s p offered rest ao,
+  dz_toy_valid z s p -> s = offered ++ rest -> offered <> [] -> (0 < ao)%nat ->
+  let '(z', cn, out, rc) := dz_toy_inflate z offered ao in
+  (cn <= length offered)%nat /\ (length out <= ao)%nat /\ exists p', p = out ++ p' /\
+  ((rc = c_dz_Z_OK /\ dz_toy_valid z' (skipn cn s) p' /\ (0 < cn + length out)%nat /\ skipn cn s <> []) \/
+   (rc = c_dz_Z_STREAM_END /\ skipn cn s = [] /\ p' = [])).
+Proof.
+  intros z s p offered rest ao Hv Hs Hne Hao. destruct z as [n|]; [|contradiction].
+  destruct Hv as [Hlen [t Ht]]. destruct n as [|n].
+  - (* only the trailer is left *)
+    destruct p; [|discriminate]. cbn [app] in Ht. subst s.
+    destruct offered as [|b o']; [congruence|]. cbn [dz_toy_inflate].
+    destruct o'; [|destruct rest; discriminate]. destruct rest; [|discriminate]. inversion Hs; subst.
+    cbn. split; [lia|]. split; [lia|]. exists []. split; auto.
+  - cbn [dz_toy_inflate]. set (k := Nat.min (S n) (Nat.min (length offered) ao)).
+    assert (Hk1 : (1 <= k)%nat). { subst k. destruct offered; [congruence|]. cbn [length]. lia. }
+    assert (Hk2 : (k <= length offered)%nat) by (subst k; lia).
+    assert (Hk3 : (k <= length p)%nat) by (subst k; lia).
+    assert (Hk4 : (k <= ao)%nat) by (subst k; lia).
+    split; auto. split; [rewrite firstn_length; lia|].
+    assert (Hpre : firstn k offered = firstn k p).
+    { assert (H1 : firstn k (offered ++ rest) = firstn k (p ++ [t])) by congruence.
+      rewrite !firstn_app in H1. replace (k - length offered)%nat with O in H1 by lia. replace (k - length p)%nat with O in H1 by lia.
+      cbn [firstn] in H1. rewrite !app_nil_r in H1. exact H1. }
+    exists (skipn k p). split; [rewrite Hpre; symmetry; apply firstn_skipn|].
+    left. split; auto. split.
+    + cbn [dz_toy_valid]. split; [rewrite skipn_length; lia|]. exists t. subst s.
+      rewrite Ht. rewrite skipn_app. replace (k - length p)%nat with O by lia. reflexivity.
+    + split; [lia|]. subst s. rewrite Ht. rewrite skipn_app. replace (k - length p)%nat with O by lia. cbn [skipn].
+      destruct (skipn k p); discriminate.
+Qed.
+
+(* an external world that rejects everything: every inflate fails at once (non-vacuity of the passthrough premise) *)
+Definition dz_reject_ask (o : unit) (q : dz_query) : dz_ans * unit :=
+  match q with
+  | QInflate _ _ => (mk_dz_ans 0 [] c_dz_Z_DATA_ERROR 0, tt)
+  | _ => (mk_dz_ans 0 [] c_dz_Z_OK 0, tt)
+  end.
+Lemma dz_reject_ask_rejects : forall o inp ao, da_rc (fst (dz_reject_ask o (QInflate inp ao))) = c_dz_Z_DATA_ERROR /\ da_out (fst (dz_reject_ask o (QInflate inp ao))) = [].
+Proof. intros. split; reflexivity. Qed.
+Lemma dz_reject_ask_inits : forall o wb, da_rc (fst (dz_reject_ask o (QInit wb))) = c_dz_Z_OK.
+Proof. intros. reflexivity. Qed.
